@@ -155,6 +155,26 @@ def extra_programs():
         out.append((f'{t}.matches("é") ? 1 : 2', "int", "extra:?:"))
         out.append((f'bytes({t})', "bytes", "extra:bytes()"))
         out.append((f'string(bytes({t}))', "string", "extra:string()"))
+    # arithmetic whose operands or result sit at the end of a range: fall-back paths taken only there must still
+    # hand back the CEL class (the instant stays in range, the wall-clock fields of the written offset do not; the
+    # last representable integers, durations and doubles)
+    hi, lo = "timestamp('9999-12-31T23:30:00+01:00')", "timestamp('0001-01-01T00:30:00-01:00')"
+    edge = [(f"{hi} + duration('1h')", "timestamp"), (f"duration('1h') + {hi}", "timestamp"), (f"{lo} - duration('1h')", "timestamp"), (f"{hi} - duration('-1h')", "timestamp"),
+            (f"{lo} + duration('-1h')", "timestamp"), (f"duration('-1h') + {lo}", "timestamp"), (f"{hi} - {lo}", "duration"), (f"{lo} - {hi}", "duration"),
+            (f"{hi} + duration('0s')", "timestamp"), (f"{lo} - duration('0s')", "timestamp"), ("timestamp('9999-12-31T23:59:59Z') - duration('1s')", "timestamp"),
+            ("timestamp('0001-01-01T00:00:00Z') + duration('1s')", "timestamp"), ("timestamp('9999-12-31T23:59:59.999999+14:00') + duration('13h')", "timestamp"),
+            ("timestamp('0001-01-01T00:00:00-14:00') - duration('13h')", "timestamp"),
+            ("duration('315576000000s') - duration('1s')", "duration"), ("duration('-315576000000s') + duration('1s')", "duration"), ("duration('315575999999s') + duration('1s')", "duration"),
+            ("9223372036854775806 + 1", "int"), ("-9223372036854775807 - 1", "int"), ("9223372036854775807 / 1", "int"), ("9223372036854775807 % 9223372036854775806", "int"), ("-9223372036854775807 * 1", "int"),
+            ("18446744073709551614u + 1u", "uint"), ("18446744073709551615u - 1u", "uint"), ("18446744073709551615u / 1u", "uint"), ("18446744073709551615u % 18446744073709551614u", "uint"),
+            ("1e308 + 1e308", "double"), ("-1e308 - 1e308", "double"), ("1e308 * 10.0", "double"), ("5e-324 / 2.0", "double"), ("1.0 / 0.0", "double"), ("0.0 / 0.0", "double"), ("-(1.0 / 0.0)", "double")]
+    for tx, ty in edge:
+        out.append((tx, ty, "extra:range-end arithmetic"))
+        out.append((f"[{tx}]", "list", "extra:range-end arithmetic"))
+        if ty in ("timestamp",):
+            out.append((f"({tx}).getFullYear()", "int", "extra:range-end arithmetic"))
+            out.append((f"string({tx})", "string", "extra:range-end arithmetic"))
+        out.append((f"true ? {tx} : {tx}", ty, "extra:range-end arithmetic"))
     return out
 
 
